@@ -10,7 +10,7 @@ from absint import Interp, RefV, IntV, Unsupported
 from units import machine_state
 from program import arch_index
 from insn import is_copy
-from cfgtools import Defs, origin, natural_loops, may_depend, Spec, operand_locals, place_locals
+from cfgtools import Defs, origin, natural_loops, may_depend, Spec, operand_locals, place_locals, rvalue_locals
 from driver_rules import state_switch
 from domains import bits_all_deps
 
@@ -441,7 +441,7 @@ def run(ctx, chk):
     cnt_ok = None
     for b, s in flat_stores:
         cap, inp = branch_deps(b)
-        vl = operand_locals(s[2][1]) if s[2][0] == "use" else set()
+        vl = rvalue_locals(s[2])
         if vl & cap_dep:
             cap = True
         if vl & in_dep:
